@@ -57,7 +57,7 @@ class WildGen:
             dunder_any=False,                                # names other than len/contains/iter
             numeric_args=True, defaults=True, pair=True, includes=True, fwd=True, enums=True,
             variables=True, operators=True, dunders=True, templated_types=True, inst_templated=True,
-            lower_inst_names=False,                          # D4: lower-case names with repeated first letter
+            lower_inst_names=True,                           # lower-case names with repeated first letter (D4, repaired)
             unsigned_char_in_inst=False,                     # D23: blank in instantiated names
             std_pair=True, member_templates=True, bases=True, class_enums=True,
             # --- template-parameter occurrences inside member types (TemplGen)
@@ -65,11 +65,11 @@ class WildGen:
             param_depth=1,             # deepest template-argument depth at which a parameter may occur (D1 beyond 1)
             scoped=True,               # T::Value at depth 0
             scoped_deep=False,         # T::Value inside template arguments (not substituted by the tool)
-            scoped_substring=False,    # D2: scoped name containing the parameter's spelling (T::Type)
+            scoped_substring=True,     # scoped name containing the parameter's spelling (T::Type) (D2, repaired)
             scoped_templated=False,    # scoped use of a parameter bound to a templated concrete type
             this_use=0.0, this_in_args=False,   # D3: vector<This>
             this_in_base=False,        # D38: class X : B<This>
-            func_templated_inst=False, # D37: function template instantiated with a templated argument
+            func_templated_inst=True,  # function template instantiated with a templated argument (D37, repaired)
             near_miss=True,            # identifiers that contain a parameter's spelling
             dunder_param_args=False,   # D39: dunder-method arguments of templated classes are not instantiated
             special_names=0.0,         # python keywords / ipython names / print / serialize as member names
@@ -130,7 +130,7 @@ class WildGen:
                     (self.scoped_ok.get(p, False) or f['scoped_templated']):
                 inner = r.choice(['Value', 'Jacobian', 'shared_ptr', 'Inner'])
                 if f['scoped_substring'] and r.random() < 0.5:
-                    inner = r.choice([p + 'ype', 'x' + p, p])
+                    inner = r.choice([p + 'ype', 'x' + p, p + p, p.lower() + p])
                 elif p in inner:
                     inner = 'Q'
                 extra = (self.r.choice(['Sub', 'detail']),) if r.random() < 0.2 else ()
@@ -163,6 +163,13 @@ class WildGen:
         if r.random() < 0.35:
             pool = [b for b in CONCRETE_BASIC if self.f['unsigned_char_in_inst'] or b != 'unsigned char']
             return S.T(r.choice(pool))
+        if self.f['lower_inst_names'] and r.random() < 0.15:
+            # lower-case type names, some with a repeated first letter
+            nm = r.choice(['optional', 'myMatrix', 'aab', 'isotropic', 'eigenVec', 'dd', 'vectorOfv'])
+            ns = r.choice([(), ('std',), ('noiseModel',)])
+            if nm == 'optional' and depth < 2:
+                return S.T(nm, ('std',), (self.plain_type(depth + 1),))
+            return S.T(nm + str(r.randint(0, 9)), ns)
         ns, name = self.typename()
         return S.T(name, ns)
 
